@@ -78,7 +78,13 @@ impl Debt {
             // necessarily observe that increment, but whoever destroys the pointer *must* see the
             // up to date value, with all increments already counted in (the Arc takes care of that
             // part).
-            .compare_exchange(ptr as usize, Self::NONE, Release, Relaxed)
+            //
+            // Acquire on failure: if the reader has already returned the debt, its Release above
+            // is what we read here. We need everything the reader did through the borrowed
+            // pointer to happen-before whatever follows our walk ‒ including another thread
+            // dropping the last reference later on, ordered after us only through the reference
+            // count. (AcqRel on success only because success must be at least as strong.)
+            .compare_exchange(ptr as usize, Self::NONE, AcqRel, Acquire)
             .is_ok()
     }
 
